@@ -758,6 +758,14 @@ func (e *Env) callExpr(ex *ast.CallExpr, hint types.Type) Val {
 				return Val{T: boolT, S: "true"}
 			}
 			return Val{T: boolT, S: "false"}
+		case "prev":
+			// prev(e): e at the head of the current iteration (only in back-when / exit-when clauses)
+			if e.loop == nil || e.x == nil || e.x.loopSnap[e.loop.header] == nil {
+				e.fail("prev() outside a loop clause")
+			}
+			n := *e
+			n.st = e.x.loopSnap[e.loop.header]
+			return n.eval(ex.Args[0], hint)
 		case "old":
 			n := *e
 			n.st = e.old
